@@ -4,6 +4,12 @@ C16/C03/C12, translator tie: the Lean definition GENERATED from the current Rust
 become a chain of tests, `Result<_, ()>` becomes `Option`) is what the hand-written concatenator
 model `BV.Concat.parseWindowSize` computes, whenever the Rust function does not panic on a short
 slice (the generated `List.getD` cannot show that panic; the model does).
+
+Further loop-free pieces of src/concat/mod.rs (struct-by-value mode: `BroCatli`, `NewStreamData` as Lean
+structures; `toState` / `toNsd` read the generated `[u8; 2]` / `[u8; 5]` lists as the model's pair / five-field
+record): `NewStreamData::new`, `NewStreamData::sufficient`, `BroCatli::new_brotli_file` (every state) and
+`BroCatli::new_with_window_size` (every `u8` argument: the generated state is the model's whenever the model
+returns, and the generated debug-build no-panic condition holds exactly when the model does not panic).
 -/
 import BV.Gen.FnC16
 import BV.Model.Concat
@@ -53,8 +59,57 @@ theorem parse_window_size_generated_of_ok (bs : List Nat) (r : Option (Nat × Na
     injection h with h
     exact h.symm
 
+/-! ## the loop-free constructors and predicates of `BroCatli` / `NewStreamData` -/
+
+/-- a generated `[u8; 5]` (a list) as the model's five-field record; missing entries read as 0 -/
+def toB5 (l : List Nat) : B5 := ⟨l.getD 0 0, l.getD 1 0, l.getD 2 0, l.getD 3 0, l.getD 4 0⟩
+
+def toNsd (d : BV.Gen.FnC16.NewStreamData) : BV.Concat.NewStreamData :=
+  ⟨toB5 d.bytes_so_far, d.num_bytes_read, d.num_bytes_written⟩
+
+/-- the generated `BroCatli` as the model's `State` (`last_bytes : [u8; 2]` as a pair) -/
+def toState (s : BroCatli) : State :=
+  { last_bytes := (s.last_bytes.getD 0 0, s.last_bytes.getD 1 0), last_bytes_len := s.last_bytes_len,
+    last_byte_sanitized := s.last_byte_sanitized, any_bytes_emitted := s.any_bytes_emitted,
+    last_byte_bit_offset := s.last_byte_bit_offset, window_size := s.window_size,
+    new_stream_pending := s.new_stream_pending.map toNsd }
+
+theorem new_stream_data_new_generated : toNsd NewStreamData_new = BV.Concat.NewStreamData.new := rfl
+
+theorem sufficient_generated (d : BV.Gen.FnC16.NewStreamData) : sufficient d = (toNsd d).sufficient := by
+  unfold sufficient BV.Concat.NewStreamData.sufficient toNsd toB5
+  by_cases h4 : d.num_bytes_read = 4 <;> by_cases h17 : (127 &&& d.bytes_so_far.getD 0 0) = 17 <;>
+    by_cases h5 : d.num_bytes_read = 5 <;> simp [h4, h5]
+
+theorem new_brotli_file_generated (s : BroCatli) : toState (new_brotli_file s) = newBrotliFile (toState s) := rfl
+
+/-- `new_with_window_size`, per `u8` argument: when the model returns, the generated state is the model's; the
+generated no-panic condition holds exactly when the model does not panic -/
+def nwwsAgree (w : Nat) : Bool :=
+  match State.newWithWindowSize w with
+  | .ok s => decide (toState (new_with_window_size w) = s) && new_with_window_size_ok w
+  | .panic _ => !new_with_window_size_ok w
+
+theorem new_with_window_size_fin : ∀ w : Fin 256, nwwsAgree w.val = true := by decide +kernel
+
+theorem new_with_window_size_generated (w : Nat) (hw : w < 256) (s : State) (h : State.newWithWindowSize w = .ok s) :
+    toState (new_with_window_size w) = s ∧ new_with_window_size_ok w = true := by
+  have := new_with_window_size_fin ⟨w, hw⟩
+  unfold nwwsAgree at this
+  simp only [h, Bool.and_eq_true, decide_eq_true_eq] at this
+  exact this
+
+theorem new_with_window_size_panics (w : Nat) (hw : w < 256) (site : Site) (h : State.newWithWindowSize w = .panic site) :
+    new_with_window_size_ok w = false := by
+  have := new_with_window_size_fin ⟨w, hw⟩
+  unfold nwwsAgree at this
+  simp only [h] at this
+  simpa using this
+
 example : parse_window_size [0x5b, 0] = some (22, 4) := by decide
 example : parse_window_size [0x11, 0x1e] = some (30, 14) := by decide
 example : parse_window_size [0x11, 0x09] = none := by decide
+example : (toState (new_with_window_size 22)).last_bytes = (0x3b, 0) := by decide
+example : new_with_window_size_ok 9 = false := by decide
 
 end BV.Props.C16Gen
